@@ -109,7 +109,9 @@ def fermion_to_qubit_mapping(fermion_operator, mapping, n_spinorbitals=None, n_e
     if mapping.upper() in {"BK", "SCBK", "JKMN"} and n_spinorbitals is None:
         raise ValueError(f"{mapping.upper()} requires n_spinorbitals to be set.")
 
-    if up_then_down:
+    # The hard-core boson mapping works with spatial orbitals (one qubit per pair): the spin ordering is irrelevant
+    # for it, and its coefficient extraction expects the alternating ordering of the input operator.
+    if up_then_down and mapping.upper() != "HCB":
         if n_spinorbitals is None:
             raise ValueError("The number of spin-orbitals is required to execute basis re-ordering.")
         fermion_operator = make_up_then_down(fermion_operator, n_spinorbitals=n_spinorbitals)
